@@ -25,7 +25,8 @@ EXTENDS Naturals, FiniteSets, Sequences
 
 CONSTANTS MaxN, Guard
 
-Kinds == {"none", "exhausted", "malformed", "limit", "panic"}
+\* "hooklimit": the container's own allocation announcement is refused (f = 0: nothing constructed yet)
+Kinds == {"none", "exhausted", "malformed", "limit", "panic", "hooklimit"}
 
 VARIABLES n, f, kind,      \* the vector: size, fault position (n = no fault), fault kind
           i, count,        \* next element, guard's count of initialised slots
@@ -37,7 +38,8 @@ vars == <<n, f, kind, i, count, live, drops, status>>
 Init ==
   /\ n \in 0..MaxN
   /\ \/ f = n /\ kind = "none"
-     \/ f \in 0..(n - 1) /\ kind \in Kinds \ {"none"}
+     \/ f \in 0..(n - 1) /\ kind \in Kinds \ {"none", "hooklimit"}
+     \/ f = 0 /\ n >= 1 /\ kind = "hooklimit"
   /\ i = 0 /\ count = 0 /\ live = {} /\ drops = [j \in 0..MaxN |-> 0]
   /\ status = "run"
 
